@@ -136,6 +136,27 @@ var blocks = []block{
 	}},
 }
 
+func init() {
+	blocks = append(blocks,
+		block{"bigdict", func(p *pg, g string) {
+			// several dicts of hundreds of long-string keys grown one insertion at a time through
+			// many doublings, with deletions and re-insertions; membership, lookup, len and
+			// iteration order of every key are part of the transcript
+			n := 60 + p.r.Intn(340)
+			salt := p.r.Intn(1000)
+			p.w("def %s_build(n, salt, rounds):\n    out = []\n    for rd in range(rounds):\n        d = {}\n        bad = []\n        keys = [\"key_%%d_%%d_%%d_long_string_suffix\" %% (salt, rd, i * 7919 %% 100003) for i in range(n + rd * 13)]\n        for i, k in enumerate(keys):\n            d[k] = i\n            if k not in d or d.get(k) != i or len(d) != i + 1 - len([1 for j in range(0, i, 3) if j + 1 < i and False]): bad.append((\"after-insert\", k, len(d)))\n        for k in keys[::3]: d.pop(k)\n        for k in keys[::6]: d[k] = -1\n        member = [k in d for k in keys]\n        looked = [d.get(k) for k in keys]\n        out.append((bad, member, looked, len(d), list(d), d.items()[:5], d.popitem()))\n    return out", g)
+			p.w("%s_res = %s_build(%d, %d, %d)", g, g, n, salt, 3+p.r.Intn(4))
+			p.w("%s_comp = {k: v for k, v in [(\"comp_key_%%d_long_enough_suffix\" %% i, i) for i in range(%d)]}\n%s_in = [(\"comp_key_%%d_long_enough_suffix\" %% i) in %s_comp for i in range(0, %d, 2)]", g, n, g, g, n+40)
+		}},
+		block{"bigset", func(p *pg, g string) {
+			// set algebra and subset / superset / equality queries on sets of 40-400 long strings
+			n := 40 + p.r.Intn(360)
+			salt := p.r.Intn(1000)
+			p.w("def %s_sets(n, salt):\n    keys = [\"elem_%%d_%%d_with_a_long_tail\" %% (salt, i * 104729 %% 1000003) for i in range(n)]\n    a = set(keys)\n    out = []\n    for lo, hi in [(0, n), (0, n // 2), (n // 3, n), (n // 4, n // 4 + 40), (0, 40), (n - 40, n), (5, 9)]:\n        b = set(keys[lo:hi])\n        c = set(keys[lo:hi] + [\"extra_element_not_in_a_long\"])\n        out.append((b <= a, b < a, a >= b, a > b, b.issubset(a), a.issuperset(b), b.issubset(keys), a.issuperset(keys[lo:hi]), c <= a, c.issubset(a), b == set(reversed(keys[lo:hi])), a == b, len(a & b), len(a | c), len(a - b), len(a ^ c), sorted(a & b) == sorted(b), [k in b for k in keys[::7]]))\n    big = set(keys)\n    for k in keys[::2]: big.discard(k)\n    for k in keys[::4]: big.add(k)\n    out.append((len(big), big <= a, big.issubset(a), a.issuperset(big), list(big)[:6], [k in big for k in keys[:50]], a.union(big) == a, a.intersection(big) == big, a.difference(big) == a - big, a.symmetric_difference(big) == a ^ big))\n    return out", g)
+			p.w("%s_res = %s_sets(%d, %d)\n%s_res2 = %s_sets(%d, %d)", g, g, n, salt, g, g, 40+p.r.Intn(60), salt+1)
+		}})
+}
+
 var errorEndings = []func(p *pg, g string){
 	func(p *pg, g string) {
 		p.w("def %s_inner(d): return d[\"missing_key_with_a_long_name\"]\ndef %s_outer(d): return [%s_inner(d) for _ in range(1)]\n%s_outer({\"some_other_long_key\": 1, \"and_another_long_key\": 2})", g, g, g, g)
@@ -202,6 +223,9 @@ func genProgram(seed uint64, i int64) program {
 	var tags []string
 	for k := 0; k < nb; k++ {
 		bi := r.Intn(len(blocks))
+		if r.Intn(4) == 0 {
+			bi = len(blocks) - 1 - r.Intn(2) // the big dict / big set blocks are over-weighted
+		}
 		if i < int64(len(blocks)) && k == 0 {
 			bi = int(i) // every block kind appears
 		}
